@@ -4,21 +4,31 @@
 //!     (case digest, digest of all observables); the supervisor joins the transcripts of the
 //!     `native-rel` and `baseline-rel` builds case by case.
 //! (2) primitives: every public `sonic_simd` vector primitive against scalar loops, inside each build.
+//! (3) NEON leg (an extension beyond the two x86-64 builds the property names): small inputs aimed
+//!     at the vector block structure (`nd:*` cases) go through the observer of everything that is
+//!     not DOM code (`observe_nd`; Miri cannot run the DOM) in all builds, and the supervisor joins
+//!     the transcript of the aarch64 build, run by the Miri interpreter with the NEON modules
+//!     compiled in, with the native x86-64 one by case digest.
 use bytes::Bytes;
 use sonic_rs::{JsonValueTrait, LazyValue, OwnedLazyValue, PointerNode, Value};
 use sonic_simd::{i8x32, u8x16, u8x32, u8x64, BitMask, Mask, Simd};
 
 use crate::core::{Case, Check, Ctx, GenParams, Tier};
+use crate::gen::doc::DocOpts;
 use crate::gen::dynval::{gen_dyn, DynOpts};
 use crate::mon::c01::derive_paths;
 use crate::rng::{fnv1a, Rng};
 
 pub struct C17;
 
-struct H(u64);
+struct H(u64, bool);
 impl H {
     fn new() -> Self {
-        H(0xcbf29ce484222325)
+        H(0xcbf29ce484222325, false)
+    }
+    /// errors count as "rejected" only (no position, no message)
+    fn reduced() -> Self {
+        H(0xcbf29ce484222325, true)
     }
     fn b(&mut self, x: &[u8]) {
         self.0 = fnv1a(&[&self.0.to_le_bytes(), x]);
@@ -31,6 +41,9 @@ impl H {
     }
     fn err(&mut self, e: &sonic_rs::Error) {
         self.s("ERR");
+        if self.1 {
+            return;
+        }
         self.n(e.offset() as u64);
         self.n(e.line() as u64);
         self.n(e.column() as u64);
@@ -115,6 +128,245 @@ pub fn observe_doc(b: &[u8]) -> u64 {
     h.0
 }
 
+/// every observable result of the non-DOM entry points (typed and lazy parsing, get*, iterators,
+/// lossy mode, string serialisation) on one small input
+///
+/// `reduced`: a rejection counts as a rejection only. The string scanners look at one vector
+/// block at a time and test it for a raw control character before they look at its escapes, so
+/// WHICH of two violations inside one block is reported depends on the block width (32 bytes on
+/// every x86-64 build, 16 with NEON); accept/reject and every accepted result do not.
+pub fn observe_nd(b: &[u8], reduced: bool) -> u64 {
+    let mut h = if reduced { H::reduced() } else { H::new() };
+    match sonic_rs::from_slice::<LazyValue>(b) {
+        Ok(v) => {
+            h.s(v.as_raw_str());
+            if let Some(s) = v.as_str() {
+                h.s(s);
+            }
+        }
+        Err(e) => h.err(&e),
+    }
+    match sonic_rs::from_slice::<OwnedLazyValue>(b) {
+        Ok(v) => h.s(&sonic_rs::to_string(&v).unwrap_or_default()),
+        Err(e) => h.err(&e),
+    }
+    match sonic_rs::from_slice::<serde_json::Value>(b) {
+        Ok(v) => h.s(&v.to_string()),
+        Err(e) => h.err(&e),
+    }
+    match sonic_rs::from_slice::<String>(b) {
+        Ok(v) => h.s(&v),
+        Err(e) => h.err(&e),
+    }
+    match sonic_rs::from_slice::<f64>(b) {
+        Ok(v) => h.n(v.to_bits()),
+        Err(e) => h.err(&e),
+    }
+    match sonic_rs::from_slice::<u64>(b) {
+        Ok(v) => h.n(v),
+        Err(e) => h.err(&e),
+    }
+    match sonic_rs::from_slice::<serde::de::IgnoredAny>(b) {
+        Ok(_) => h.s("OK"),
+        Err(e) => h.err(&e),
+    }
+    if let Ok(s) = std::str::from_utf8(b) {
+        match sonic_rs::from_str::<serde_json::Value>(s) {
+            Ok(v) => h.s(&v.to_string()),
+            Err(e) => h.err(&e),
+        }
+        match sonic_rs::from_str::<std::borrow::Cow<str>>(s) {
+            Ok(v) => h.s(&v),
+            Err(e) => h.err(&e),
+        }
+    }
+    let well_formed = std::str::from_utf8(b).is_ok() && crate::refmodel::recog::parse_document(b).is_ok();
+    let paths: Vec<Vec<PointerNode>> = derive_paths(b);
+    let by = Bytes::copy_from_slice(b);
+    for p in paths.iter().take(8) {
+        match sonic_rs::get(b, p) {
+            Ok(v) => {
+                h.s(v.as_raw_str());
+                h.n((v.as_raw_str().as_ptr() as usize).wrapping_sub(b.as_ptr() as usize) as u64);
+            }
+            Err(e) => h.err(&e),
+        }
+        if well_formed {
+            if let Ok(v) = unsafe { sonic_rs::get_from_bytes_unchecked(&by, p) } {
+                h.s(v.as_raw_str());
+            }
+        }
+    }
+    // (the five fixed paths of `derive_paths` are not shape-consistent with each other; the ones
+    // read off the document are)
+    if paths.len() > 5 {
+        let mut tree = sonic_rs::PointerTree::new();
+        for p in paths.iter().skip(5).take(6) {
+            tree.add_path(p.iter());
+        }
+        match sonic_rs::get_many(b, &tree) {
+            Ok(vs) => {
+                for v in vs {
+                    match v {
+                        Some(v) => h.s(v.as_raw_str()),
+                        None => h.s("-"),
+                    }
+                }
+            }
+            Err(e) => h.err(&e),
+        }
+    }
+    for x in sonic_rs::to_array_iter(b).take(1000) {
+        match x {
+            Ok(v) => h.s(v.as_raw_str()),
+            Err(e) => h.err(&e),
+        }
+    }
+    for x in sonic_rs::to_object_iter(b).take(1000) {
+        match x {
+            Ok((k, v)) => {
+                h.s(&k);
+                h.s(v.as_raw_str());
+            }
+            Err(e) => h.err(&e),
+        }
+    }
+    match sonic_rs::Deserializer::from_slice(b).utf8_lossy().deserialize::<serde_json::Value>() {
+        Ok(v) => h.s(&v.to_string()),
+        Err(e) => h.err(&e),
+    }
+    // the same bytes as a Rust string going out (escaper), when they are one
+    if let Ok(s) = std::str::from_utf8(b) {
+        h.s(&sonic_rs::to_string(s).unwrap_or_default());
+        h.s(&sonic_rs::to_string_pretty(&[s, s]).unwrap_or_default());
+    }
+    h.0
+}
+
+/// inputs aimed at the 16/32/64-byte block structure of the vector code, the same in every build
+fn nd_cases(g: &GenParams, emit: &mut dyn FnMut(Case)) {
+    let mut r = Rng::new(g.seed.wrapping_mul(0x9E37_79B9).wrapping_add(g.shard * 1_000_003 + 0x6e64));
+    let n = if g.tier == Tier::Quick { 14 } else { 160 };
+    const WS: &[u8] = b" \t\r\n";
+    let ws = |r: &mut Rng| -> Vec<u8> {
+        let len = match r.below(6) {
+            0 => 0,
+            1 => r.below(4) as usize,
+            2 => 60 + r.below(12) as usize,
+            3 => 120 + r.below(20) as usize,
+            _ => r.below(70) as usize,
+        };
+        let mono = r.chance(1, 3);
+        let c = *r.pick(WS);
+        (0..len).map(|_| if mono { c } else { *r.pick(WS) }).collect()
+    };
+    let tricky = |r: &mut Rng, max: u64| -> String {
+        // string content made of what the skippers and escapers look for
+        let len = r.below(max) as usize;
+        let mut s = String::new();
+        while s.len() < len {
+            s.push_str(*r.pick(&["a", "b", "]", "}", "[", "{", ",", ":", "\\\"", "\\\\", "\\n", "\\u00e9", "\\ud83d\\ude00", "é", "中", "😀", " ", "0", "\\/", "\\t"]));
+        }
+        s
+    };
+    for k in 0..n {
+        let mut d: Vec<u8> = vec![];
+        match k % 7 {
+            0 => {
+                // blank runs between every pair of tokens
+                let parts: &[&[u8]] = if r.chance(1, 2) { &[b"{", b"\"k\"", b":", b"[", b"1", b",", b"-2.5e3", b",", b"\"v\"", b"]", b",", b"\"n\"", b":", b"null", b"}"] } else { &[b"[", b"true", b",", b"{", b"\"a\"", b":", b"{", b"}", b"}", b",", b"[", b"]", b",", b"17", b"]"] };
+                d.extend(ws(&mut r));
+                for p in parts {
+                    d.extend_from_slice(p);
+                    d.extend(ws(&mut r));
+                }
+            }
+            1 => {
+                // one string literal: length, start offset and the place of the special sequence vary
+                let off = r.below(66) as usize;
+                d.extend(std::iter::repeat(b' ').take(off));
+                d.push(b'"');
+                d.extend_from_slice(tricky(&mut r, 110).as_bytes());
+                match r.below(8) {
+                    0 => d.push(0x1f),
+                    1 => d.push(b'\n'),
+                    2 => d.extend_from_slice(b"\\x"),
+                    3 => d.extend_from_slice(b"\\ud800"),
+                    4 => d.extend_from_slice(&[0xff]),
+                    _ => {}
+                }
+                d.extend_from_slice(tricky(&mut r, 40).as_bytes());
+                if !r.chance(1, 12) {
+                    d.push(b'"');
+                }
+                d.extend(ws(&mut r));
+            }
+            2 => {
+                // a member to skip over (strings full of brackets, quotes, backslashes), then the target
+                let inner = format!("[\"{}\",{{\"{}\":[\"{}\"]}},\"{}\"]", tricky(&mut r, 90), tricky(&mut r, 30), tricky(&mut r, 70), tricky(&mut r, 20));
+                d.extend_from_slice(format!("{{\"skip\":{},", inner).as_bytes());
+                d.extend(ws(&mut r));
+                d.extend_from_slice(b"\"a\":");
+                d.extend(ws(&mut r));
+                d.extend_from_slice(format!("[7,{}],\"t\":{}}}", r.below(1000), r.below(100000)).as_bytes());
+            }
+            3 => {
+                // numbers: digit runs around the 16-digit vector conversion
+                let digits = 1 + r.below(40) as usize;
+                let mut t = String::new();
+                if r.chance(1, 3) {
+                    t.push('-');
+                }
+                for i in 0..digits {
+                    t.push((b'0' + if i == 0 { 1 + r.below(9) as u8 } else { r.below(10) as u8 }) as char);
+                }
+                if r.chance(1, 2) {
+                    t.push('.');
+                    for _ in 0..1 + r.below(25) {
+                        t.push((b'0' + r.below(10) as u8) as char);
+                    }
+                }
+                if r.chance(1, 3) {
+                    t.push_str(&format!("e{}", r.below(600) as i64 - 300));
+                }
+                if r.chance(1, 10) {
+                    t.push_str(*r.pick(&["x", ".", "e", "-", "1e"]));
+                }
+                if r.chance(1, 2) {
+                    d.extend_from_slice(t.as_bytes());
+                } else {
+                    d.extend_from_slice(format!("[{},{}]", t, t).as_bytes());
+                }
+            }
+            4 => {
+                // text for the escaper: a plain run with specials at chosen places
+                let len = r.below(100) as usize;
+                let mut s = String::new();
+                for i in 0..len {
+                    s.push((b'a' + (i % 26) as u8) as char);
+                }
+                for _ in 0..r.below(4) {
+                    let at = if s.is_empty() { 0 } else { r.below(s.len() as u64 + 1) as usize };
+                    let at = (0..=at).rev().find(|i| s.is_char_boundary(*i)).unwrap_or(0);
+                    s.insert_str(at, *r.pick(&["\"", "\\", "\n", "\r", "\t", "\u{0}", "\u{1f}", "\u{7f}", "é", "中", "😀", "\u{8}", "\u{c}", "/"]));
+                }
+                d.extend_from_slice(s.as_bytes());
+            }
+            _ => {
+                let mut o = DocOpts::random(&mut r);
+                o.budget = o.budget.min(14);
+                let doc = crate::gen::doc::gen_doc(&mut r, &o);
+                let doc = if doc.len() > 260 { doc[..260].to_vec() } else { doc };
+                d = if k % 7 == 5 { doc } else { crate::gen::mutate::mutate(&mut r, &doc).0 };
+            }
+        }
+        if g.build != "miri-a64" {
+            emit(Case::new("nd:x", d.clone()));
+        }
+        emit(Case::new("nd:r", d));
+    }
+}
+
 pub fn observe_ser(s: &str) -> u64 {
     let mut h = H::new();
     h.s(&sonic_rs::to_string(s).unwrap_or_default());
@@ -125,6 +377,43 @@ pub fn observe_ser(s: &str) -> u64 {
 }
 
 // ---- primitives against scalar loops
+
+/// a backend's bitmask as one bit per lane
+trait Lanes64 {
+    fn lanes64(self) -> u64;
+}
+impl Lanes64 for u16 {
+    fn lanes64(self) -> u64 {
+        self as u64
+    }
+}
+impl Lanes64 for u32 {
+    fn lanes64(self) -> u64 {
+        self as u64
+    }
+}
+impl Lanes64 for u64 {
+    fn lanes64(self) -> u64 {
+        self
+    }
+}
+/// the NEON mask keeps four bits per lane and has no accessor: its one field is read directly.
+/// A lane whose four bits are neither all set nor all clear is reported as bit 63 (no backend
+/// has a lane there), so that it never compares equal to a scalar result.
+impl Lanes64 for sonic_simd::bits::NeonBits {
+    fn lanes64(self) -> u64 {
+        let raw: u64 = unsafe { std::mem::transmute(self) };
+        let mut out = 0u64;
+        for i in 0..16 {
+            match (raw >> (4 * i)) & 0xf {
+                0 => {}
+                0xf => out |= 1 << i,
+                _ => out |= 1 << 63,
+            }
+        }
+        out
+    }
+}
 
 fn fill(r: &mut Rng, buf: &mut [u8], special: u8) {
     for b in buf.iter_mut() {
@@ -174,9 +463,9 @@ macro_rules! check_unsigned {
                         gt |= 1 << i;
                     }
                 }
-                let got_eq = va.eq(&vs).bitmask() as u64;
-                let got_le = va.le(&vs).bitmask() as u64;
-                let got_gt = va.gt(&vs).bitmask() as u64;
+                let got_eq = va.eq(&vs).bitmask().lanes64();
+                let got_le = va.le(&vs).bitmask().lanes64();
+                let got_gt = va.gt(&vs).bitmask().lanes64();
                 $ctx.ops(3);
                 if got_eq != eq {
                     $ctx.fail(&format!("simd-eq:{}", stringify!($t)), format!("eq({:?}, splat {}) = {:#x}, scalar {:#x}", &a[..lanes], elem, got_eq, eq));
@@ -188,8 +477,8 @@ macro_rules! check_unsigned {
                     $ctx.fail(&format!("simd-gt:{}", stringify!($t)), format!("gt({:?}, splat {}) = {:#x}, scalar {:#x}", &a[..lanes], elem, got_gt, gt));
                 }
                 // mask | and &
-                let m_or = (va.eq(&vs) | va.gt(&vs)).bitmask() as u64;
-                let m_and = (va.le(&vs) & va.eq(&vs)).bitmask() as u64;
+                let m_or = (va.eq(&vs) | va.gt(&vs)).bitmask().lanes64();
+                let m_and = (va.le(&vs) & va.eq(&vs)).bitmask().lanes64();
                 if m_or != (eq | gt) || m_and != (le & eq) {
                     $ctx.fail(&format!("simd-mask-ops:{}", stringify!($t)), format!("| {:#x} vs {:#x}, & {:#x} vs {:#x}", m_or, eq | gt, m_and, le & eq));
                 }
@@ -225,7 +514,7 @@ fn check_signed(ctx: &mut Ctx, r: &mut Rng) {
                 }
             }
             ctx.ops(3);
-            let (g_eq, g_le, g_gt) = (va.eq(&vs).bitmask() as u64, va.le(&vs).bitmask() as u64, va.gt(&vs).bitmask() as u64);
+            let (g_eq, g_le, g_gt) = (va.eq(&vs).bitmask().lanes64(), va.le(&vs).bitmask().lanes64(), va.gt(&vs).bitmask().lanes64());
             if g_eq != eq || g_le != le || g_gt != gt {
                 ctx.fail("simd-signed:i8x32", format!("lanes {:?} vs splat {}: eq {:#x}/{:#x} le {:#x}/{:#x} gt {:#x}/{:#x}", a, elem, g_eq, eq, g_le, le, g_gt, gt));
             }
@@ -288,6 +577,59 @@ fn check_bitmask<T: BitMask + Copy + PartialEq + std::fmt::Debug + Into<u64>>(ct
     }
 }
 
+/// `sonic_simd::bits::NeonBits` (four bits per lane, 16 lanes) is plain integer code and public on
+/// every target: its operators against a one-bit-per-lane model
+fn check_neonbits(ctx: &mut Ctx, r: &mut Rng) {
+    use sonic_simd::bits::NeonBits;
+    let expand = |v: u64| -> u64 { (0..16).fold(0u64, |a, i| if v >> i & 1 == 1 { a | (0xf << (4 * i)) } else { a }) };
+    let mut vals: Vec<u64> = vec![0, 1, 0xffff, 0x7fff, 0x8000];
+    for i in 0..16 {
+        vals.push(1 << i);
+        vals.push((1u64 << i) - 1);
+    }
+    for _ in 0..(if cfg!(miri) { 8 } else { 2000 }) {
+        vals.push(r.next() & 0xffff);
+    }
+    for &v in &vals {
+        let t = NeonBits::new(expand(v));
+        ctx.ops(3);
+        if t.all_zero() != (v == 0) {
+            ctx.fail("bitmask-all_zero:NeonBits", format!("{:#x}", v));
+        }
+        if v != 0 && t.first_offset() != v.trailing_zeros() as usize {
+            ctx.fail("bitmask-first_offset:NeonBits", format!("{:#x}: {} vs {}", v, t.first_offset(), v.trailing_zeros()));
+        }
+        if t.as_little_endian().lanes64() != v {
+            ctx.fail("bitmask-as_little_endian:NeonBits", format!("{:#x}", v));
+        }
+        // n = LEN (clear every lane) is what the integer masks accept too
+        for n in 0..=16usize {
+            let want = if n == 16 { 0 } else { v & (0xffff >> n) };
+            let got = match crate::core::guarded(|| NeonBits::new(expand(v)).clear_high_bits(n).lanes64()) {
+                Ok(g) => g,
+                Err(_) => {
+                    ctx.fail("bitmask-clear_high_bits-panics:NeonBits", format!("clear_high_bits({}) of lanes {:#x} panicked", n, v));
+                    continue;
+                }
+            };
+            if got != want {
+                ctx.fail("bitmask-clear_high_bits:NeonBits", format!("clear_high_bits({}) of lanes {:#x} = lanes {:#x}, scalar {:#x}", n, v, got, want));
+            }
+        }
+        for &w in vals.iter().take(40) {
+            // (with four bits per lane `rhs - 1` keeps three bits of rhs's own lowest lane: the
+            // operands are masks of disjoint byte classes wherever the library calls this, and
+            // only that case has a defined answer)
+            if w.count_ones() == 1 && v & w == 0 {
+                let want = (v & (w - 1)) != 0;
+                if t.before(&NeonBits::new(expand(w))) != want {
+                    ctx.fail("bitmask-before:NeonBits", format!("lanes {:#x}.before(lanes {:#x}) = {}, scalar {}", v, w, !want, want));
+                }
+            }
+        }
+    }
+}
+
 fn check_primitives(ctx: &mut Ctx, seed: u64) {
     let mut r = Rng::new(seed);
     check_unsigned!(ctx, u8x16, 16, &mut r);
@@ -297,6 +639,7 @@ fn check_primitives(ctx: &mut Ctx, seed: u64) {
     check_bitmask::<u16>(ctx, "u16", |v| v as u16, &mut r);
     check_bitmask::<u32>(ctx, "u32", |v| v as u32, &mut r);
     check_bitmask::<u64>(ctx, "u64", |v| v, &mut r);
+    check_neonbits(ctx, &mut r);
     // Mask::splat
     ctx.ops(2);
     if sonic_simd::m8x32::splat(true).bitmask() != u32::MAX || sonic_simd::m8x32::splat(false).bitmask() != 0 {
@@ -325,10 +668,16 @@ impl Check for C17 {
         if g.shard == 0 {
             emit(Case::with("primitives", vec![], &[g.seed as i64]));
         }
+        if g.build == "miri-a64" {
+            // aarch64 under the interpreter: primitives and the NEON cases
+            nd_cases(g, emit);
+            return;
+        }
         if g.build.starts_with("miri") {
             // interpreter build (riscv64: the pure-Rust v128/v256/v512 types): primitives only
             return;
         }
+        nd_cases(g, emit);
         for (name, chk, sc) in sub_generators() {
             // the sub-generators must yield the same cases in both builds: they get the same
             // parameters and a fixed build name
@@ -349,6 +698,10 @@ impl Check for C17 {
         let (src, entry) = c.entry.split_once(':').unwrap_or(("?", "?"));
         ctx.ops(1);
         let obs = match (src, entry) {
+            // the full observer (compared between the x86-64 builds only) and the reduced one (the
+            // only one the aarch64 build runs)
+            ("nd", "x") => observe_nd(&c.input, false),
+            ("nd", _) => observe_nd(&c.input, true),
             ("C03", "corpus") => {
                 let Some(f) = crate::mon::c03::corpus(c.p(0) as usize) else { return };
                 let mut b = vec![b' '; c.p(1) as usize];
@@ -441,9 +794,12 @@ impl Check for C17 {
         ctx.sample(src);
     }
     fn required_classes(&self, b: &str, _t: Tier) -> Vec<&'static str> {
+        if b == "miri-a64" {
+            return vec!["primitives:checked", "transcribed:nd"];
+        }
         if b.starts_with("miri") {
             return vec!["primitives:checked"];
         }
-        vec!["primitives:checked", "transcribed:C02", "transcribed:C03", "transcribed:C05", "transcribed:C09", "transcribed:C10", "transcribed:C12"]
+        vec!["primitives:checked", "transcribed:nd", "transcribed:C02", "transcribed:C03", "transcribed:C05", "transcribed:C09", "transcribed:C10", "transcribed:C12"]
     }
 }
